@@ -63,3 +63,19 @@ Proof.
   - apply chunked_R_call; assumption.
 Qed.
 Print Assumptions C19_rf_write_returns_next_available.
+
+(* block calls: the C cursor is the Spec cursor (one past the highest index of the last accepted call)
+   and every stored index lies below it, for every history of block calls, chunked layouts *)
+From DRF Require Import Proofs.WriterMultiIdx Proofs.WriterMulti.
+
+Theorem C19_cursor_blocks_chunked : forall c ops, vcfg c -> c_chunk c = true ->
+  Forall (fun op => first_nonneg (fst op)) ops ->
+  let st := fold_left (model_step_blocks c) ops init_state in
+  w_gi st = s_cur (fold_left (spec_step_blocks c) ops spec_init) /\
+  forall k v, lookup_st st k = Some v -> k < c_start c + w_gi st.
+Proof.
+  intros c ops Hc Hch Hops st. split.
+  - exact (proj1 (proj2 (writer_refines_blocks_chunked c ops Hc Hch Hops))).
+  - exact (cursor_one_past_highest_blocks c ops Hc Hch Hops).
+Qed.
+Print Assumptions C19_cursor_blocks_chunked.
